@@ -10,6 +10,7 @@ import hashlib
 import os
 import pickle
 import sys
+import threading
 import time
 import warnings
 from contextlib import nullcontext, suppress
@@ -452,7 +453,7 @@ class DiskCache(_CacheBase):
         file_path = self._get_file_path(key)
         # Write to a temporary file and rename it into place, so that a concurrent reader
         # (another process sharing the cache directory) never sees a partially written file.
-        tmp_path = file_path.with_name(f".{file_path.name}.{os.getpid()}.tmp")
+        tmp_path = file_path.with_name(f".{file_path.name}.{os.getpid()}.{threading.get_ident()}.tmp")
         with tmp_path.open("wb") as f:
             if self.use_cloudpickle:
                 cloudpickle.dump(value, f)
